@@ -75,6 +75,19 @@ theorem inline_then_fold_preserves {thr : Nat} {T T' : List FnDef} (hrel : Rel t
   simp only [fold_preserves]
   exact inline_preserves hrel pol e s r
 
+/-- **The operand-count condition of `eligible` is needed** (finding K02b: the recursive inliner omits it):
+`(define (two a b) a)`, `(two 1 2 3)` is an error at every call depth, but the rewritten call yields 1. -/
+theorem inline_needs_arity_check :
+    let fns : List FnDef := [{ arity := 2, body := .loc 0 }]
+    let args : List IR := [.const (.int 1), .const (.int 2), .const (.int 3)]
+    (∀ F, evalIR fns F (.call 0 args) [] = none) ∧
+    evalIR fns 0 (inlineCallNoArity fns 0 0 args) [] = some (.int 1, []) := by
+  refine ⟨fun F => ?_, ?_⟩
+  · cases F with
+    | zero => simp [evalIR]
+    | succ F => simp [evalIR, evalArgs]
+  · simp [inlineCallNoArity, bindArgs, shift, evalIR]
+
 /-! ## (b) Tiers -/
 
 /-- **Tier transparency.**  If one native instruction does what the interpreter's instruction does, then for
